@@ -139,6 +139,10 @@ class SEval:
             raise _Return()
         elif isinstance(s, ast.For):
             it = self.ev(s.iter)
+            if isinstance(it, SVec):
+                it = it.items
+            elif not isinstance(it, (list, tuple, range)):
+                raise Unknown(f"iteration over {type(it).__name__}")
             for x in list(it):
                 self.bind(s.target, x)
                 self.block(s.body)
